@@ -1029,6 +1029,12 @@ func (sc *Script) Render() string {
 			refs[a]++
 		}
 	})
+	for _, w := range sc.Want {
+		if w.Op == "sym" {
+			syms[w.Name] = w
+			collectSorts(w.Sort, seenSort, &sorts)
+		}
+	}
 	for _, u := range ufs {
 		for _, a := range u.Args {
 			collectSorts(a, seenSort, &sorts)
